@@ -315,6 +315,16 @@ def task_fn(task: tuple) -> dict:
     return part.out()
 
 
+def replay_case(raw: dict, part: Part) -> None:
+    backends.setup_determinism()
+    simfs.install()
+    run = CrashRun(raw["lock"], tuple(raw["victim"]), tuple(raw["crash"]), tuple(tuple(p) for p in raw["survivors"]))
+    ex = run.execute(Chooser(list(raw["schedule"])))
+    print("acked:", ex["acked"], "interrupted:", ex["interrupted"], "survivor results:", ex["results"])
+    for clause, detail in run.check(ex):
+        part.violation(clause, raw)
+
+
 def run(tier: str, replay: str | None = None) -> int:
     backends.setup_determinism()
     ctx = Ctx(PID, tier, "fault_enumeration")
